@@ -461,6 +461,9 @@ psgstrf_WorkInit(int_t n, int_t panel_size, int_t **iworkptr, float **dworkptr)
 	fprintf(stderr, "psgstrf_WorkInit: malloc fails for local iworkptr[]\n");
 	return (isize + n);
     }
+#ifdef SLU_MT_VERIF
+    SLUV_YIELD(SLUV_Y_WORK_ALIGN);
+#endif
 
     if ( whichspace == SYSTEM )
 	*dworkptr = (float *) SUPERLU_MALLOC((size_t) dsize);
